@@ -1,10 +1,15 @@
-(* C10 -- rule and option switches have exactly their documented effect.  Proved so far: the
+(* C10 -- rule and option switches have exactly their documented effect.  Proved: for EVERY source
+   and configuration, every token the block parser appends has the (type, tag) of the vocabulary
+   of a rule that is in the chain (C10_block_kinds_need_producer): no table tokens without the
+   table rule, no heading tokens without heading / lheading, no html_block without the rule and
+   options.html ...; the side condition (terminator chains are sub-lists of the main chain) holds
+   for every configuration compiled from a Ruler state (C10_ruler_chains).  And: the
    two extensions are conservative at rule level (a table rule on a source without '|' and a
    strikethrough rule away from '~' return false and leave the state untouched; strikethrough
    post-processing without '~' delimiters leaves the tokens untouched).  Only statements and
    [exact]. *)
 From MD Require Import Base.Py Base.Str Base.Opt Model.Token Model.Utils Model.StateBlock Model.Block Model.Inline
-     Lemmas.BlockLemmas Lemmas.InlineLemmas.
+     Model.Ruler Lemmas.BlockLemmas Lemmas.InlineLemmas Lemmas.BlockKinds.
 
 Theorem C10_table_inert :
   forall cfg term st startLine endLine silent r,
@@ -24,3 +29,19 @@ Theorem C10_strikethrough_post_inert :
   forall ds tokens r, Forall (fun d => d_marker d <> 126) ds -> strike_post ds tokens = Ok r -> r = tokens.
 Proof. exact strike_post_inert. Qed.
 Print Assumptions C10_strikethrough_post_inert.
+
+(* every block token kind has a producer in the chain *)
+Theorem C10_block_kinds_need_producer :
+  forall cfg reformat casefold, chains_sub cfg ->
+  forall src env toks st,
+    block_parse cfg reformat casefold src env toks = Ok st ->
+    exists seg, b_tokens st = toks ++ seg /\ Forall (fun t => exists n, In n (c_rules cfg) /\ P_rule cfg n t) seg.
+Proof. exact block_parse_kinds. Qed.
+Print Assumptions C10_block_kinds_need_producer.
+
+(* the side condition holds for every configuration compiled from a Ruler state *)
+Theorem C10_ruler_chains :
+  forall (rs : list (@rule str)) code mn html defs,
+    chains_sub (mkBCfg (compile_chain rs []) (compile_chain rs) code mn html defs).
+Proof. exact ruler_cfg_chains_sub. Qed.
+Print Assumptions C10_ruler_chains.
